@@ -473,6 +473,7 @@ pub fn escape_attr(s: &str, quote: char) -> String {
     for c in s.chars() {
         match c {
             '<' => o.push_str("&lt;"),
+            '>' => o.push_str("&gt;"),
             '&' => o.push_str("&amp;"),
             '"' if quote == '"' => o.push_str("&quot;"),
             '\'' if quote == '\'' => o.push_str("&apos;"),
